@@ -48,7 +48,7 @@ PROPS = {
                 title="bookkeeping exact, symmetric, no dead names"),
     "C09": dict(streams=["contract_full", "exh2"], fields=["D", "heapcounts"], oracles=[], contract=True,
                 title="destroyed sets independent of layout", layout=True),
-    "C10": dict(streams=["script", "corpus"], fields=ALL_FIELDS, oracles=["O1", "O2", "O5", "O6", "O8"], contract=True,
+    "C10": dict(streams=["script", "corpus"], fields=[f for f in ALL_FIELDS if f != "T"], oracles=["O1", "O2", "O5", "O6", "O8"], contract=True,
                 title="re-entrant destructors"),
     "C11": dict(streams=["panic"], fields=["D", "P", "E", "F", "heapcounts", "roots"], oracles=["O1", "O2", "O5", "O6"],
                 contract=True, title="panicking destructor", panicapi=True),
@@ -56,9 +56,9 @@ PROPS = {
                 oracles=["O1", "O2", "O4", "O8"], contract=False, title="consuming APIs on adopted objects"),
     "C13": dict(streams=["elide", "corpus"], fields=["D", "E", "heap", "roots"], oracles=["O1", "O2"], contract=False,
                 title="elided unadopt", known="D4", o1_free=True),
-    "C14": dict(streams=["contract", "raw", "noadopt", "api"], fields=["T"], oracles=["O14"], contract=False,
+    "C14": dict(streams=["contract", "raw", "noadopt", "api"], fields=["T0"], oracles=["O14"], contract=False,
                 title="pay-as-you-go"),
-    "C15": dict(streams=["contract", "exh2"], fields=["T"], oracles=[], contract=False, title="iterative and linear",
+    "C15": dict(streams=["contract", "exh2"], fields=["Tle"], oracles=[], contract=False, title="iterative and linear",
                 bigring=True),
     "C16": dict(streams=["abort"], fields=["D", "E", "roots"], oracles=[], contract=True,
                 title="cloning a dead handle aborts", abort=True),
